@@ -76,6 +76,7 @@ theorem outcome_no_crash (tb : MsgTables) (top : Top) (hs : top.isStream = false
     | anticipated => simp [pumpOutcome]
     | subceeded => simp [pumpOutcome]
     | value => simp [pumpOutcome]
+    | valueNone => simp [pumpOutcome]
 
 /-- **C06 for structures**: for every non-union layout of /repo and EVERY byte string, strict decoding ends with the
 object, with one of the documented errors (a constraint violation, input depleted, input superfluous) — never with an
@@ -123,6 +124,7 @@ theorem crash_from_walker (tb : MsgTables) (top : Top) (x : List Byte) (c m : St
       | anticipated => simp [pumpOutcome] at h'
       | subceeded => simp [pumpOutcome] at h'
       | value => simp [pumpOutcome] at h'
+      | valueNone => simp [pumpOutcome] at h'
 
 /-- **C06 for commands**: every byte string decoded as a command ends with the object or a documented error -/
 theorem c06_no_crash_command (x : List Byte) : ∀ c m, (marshalRun true Generated.msgTables .command x).outcome ≠ .crash c m := by
